@@ -14,14 +14,14 @@ import (
 	"verif/sim"
 )
 
+// SetWouldBlockSink connects the scheduler to the lock facade of the code under test.
 func SetWouldBlockSink(s *sim.Sched) {
 	if s == nil {
-		verifsync.SetSink(nil)
 		return
 	}
-	verifsync.SetSink(func(op string) {
-		s.Flag("would-block", op, "a call had to wait for a lock held by another call")
-	})
+	verifsync.SetAborted(false)
+	s.Waiters = verifsync.Waiting
+	s.OnStop = func() { verifsync.SetAborted(true) }
 }
 
 // embedDoc wraps a css/js/json/svg document into an HTML host so that the I/O of the
